@@ -85,6 +85,20 @@ func (c *Config) render() string {
 	return sb.String()
 }
 
+var runExited = make(chan struct{})
+
+// Exited reports whether the application's Run has returned (it does so when an adapter cannot
+// listen, e.g. because another process took the port between FreePort and the server's bind: the
+// process then has no server of its own and whatever answers on that port is somebody else's).
+func Exited() bool {
+	select {
+	case <-runExited:
+		return true
+	default:
+		return false
+	}
+}
+
 // Start configures and runs the application; imp is handed to the dispatcher unchanged.
 // It returns once every TCP adapter accepts connections.
 func Start(c *Config, d Dispatcher, imp interface{}, withContext bool) error {
@@ -117,7 +131,10 @@ func Start(c *Config, d Dispatcher, imp interface{}, withContext bool) error {
 			tars.AddServant(dd, ii, a.Obj)
 		}
 	}
-	go tars.Run()
+	go func() {
+		tars.Run()
+		close(runExited)
+	}()
 	deadline := time.Now().Add(10 * time.Second)
 	for _, a := range c.Adapters {
 		if a.Proto != "tcp" {
